@@ -174,9 +174,14 @@ func (w *wal) read() (WALBatch, error) {
 	reader := bufio.NewReader(w.reader)
 	tupleLenBuf := make([]byte, 4)
 
+	// offset just past the last complete record
+	var complete int64
+
 	for {
 		if n, err := io.ReadFull(reader, tupleLenBuf); err == io.EOF {
 			break
+		} else if err == io.ErrUnexpectedEOF {
+			return ret, w.dropTornTail(complete)
 		} else if err != nil {
 			return ret, err
 		} else if n != len(tupleLenBuf) {
@@ -189,20 +194,34 @@ func (w *wal) read() (WALBatch, error) {
 		}
 
 		tupleBuf := make([]byte, tupleLen)
-		if n, err := io.ReadFull(reader, tupleBuf); err != nil {
+		if n, err := io.ReadFull(reader, tupleBuf); err == io.EOF || err == io.ErrUnexpectedEOF {
+			// the process died while appending this record, so the statement
+			// it belongs to was never acknowledged: the log ends before it
+			return ret, w.dropTornTail(complete)
+		} else if err != nil {
 			return ret, err
 		} else if n != tupleLen {
 			panic("bytes read differs from expected buffer length")
 		}
 
-		w := &WALEntry{}
-		if err := w.decode(bytes.NewBuffer(tupleBuf)); err != nil {
+		entry := &WALEntry{}
+		if err := entry.decode(bytes.NewBuffer(tupleBuf)); err != nil {
 			return ret, err
 		}
-		ret = append(ret, w)
+		ret = append(ret, entry)
+		complete += int64(len(tupleLenBuf) + tupleLen)
 	}
 
 	return ret, nil
+}
+
+// dropTornTail cuts an incompletely written last record off the log, so that
+// records appended from now on follow the last complete one.
+func (w *wal) dropTornTail(size int64) error {
+	if f, ok := w.reader.(interface{ Truncate(size int64) error }); ok {
+		return f.Truncate(size)
+	}
+	return nil
 }
 
 func (w *wal) flush(batch WALBatch) error {
